@@ -832,8 +832,41 @@ def item_tower(repo):
             'def towerShapeChecked : Bool := true\n')
 
 
+def item_timeouts(repo):
+    """request deadlines (C11): header parsing, the min rule of both layers, what happens at the deadline,
+    and the wiring of the configured defaults into every network"""
+    def src(rel):
+        t = strip_comments(read(repo, rel))
+        cut = t.find('#[cfg(test)]')
+        return t[:cut] if cut > 0 else t
+    m = flat(src('crates/anemo/src/middleware/timeout/mod.rs'))
+    if 'pub(crate) fn try_parse_timeout(headers: &HeaderMap) -> Result<Option<Duration>, &str> { match headers.get(header::TIMEOUT) { Some(val) => { let nanoseconds = val.parse::<u64>().map_err(|_| val.as_ref())?; let duration = Duration::from_nanos(nanoseconds); Ok(Some(duration)) } None => Ok(None), } }' not in m:
+        raise ValueError('timeouts: try_parse_timeout')
+    if 'pub(crate) fn duration_to_timeout(duration: Duration) -> String { let nanoseconds: u64 = duration.as_nanos().try_into().unwrap_or(u64::MAX); nanoseconds.to_string() }' not in m:
+        raise ValueError('timeouts: duration_to_timeout')
+    call = ('let request_timeout = super::try_parse_timeout(req.headers()).unwrap_or_else(|e| { None }); '
+            'let timeout_duration = match (request_timeout, self.default_timeout) { (None, None) => None, (Some(dur), None) => Some(dur), (None, Some(dur)) => Some(dur), '
+            '(Some(request), Some(default)) => { let shorter_duration = std::cmp::min(request, default); Some(shorter_duration) } }; '
+            'ResponseFuture { inner: self.inner.call(req), sleep: timeout_duration.map(tokio::time::sleep), }')
+    for rel, at_deadline in [('crates/anemo/src/middleware/timeout/inbound.rs', 'let response = Response::new(Bytes::new()).with_status(StatusCode::RequestTimeout); return Poll::Ready(Ok(response));'),
+                             ('crates/anemo/src/middleware/timeout/outbound.rs', 'return Poll::Ready(Err(TimeoutExpired(()).into()));')]:
+        t = src(rel)
+        c = flat(re.sub(r'tracing::trace!\([^;]*\);', '', block_after(t, r'fn\s+call\s*\(\s*&mut self, req: Request<ReqBody>\s*\)\s*->\s*Self::Future')))
+        if c != call:
+            raise ValueError('timeouts: call of ' + rel.split('/')[-1] + ': ' + c[:120])
+        pl = flat(block_after(t, r'fn\s+poll\s*\(\s*self: Pin<&mut Self>, cx: &mut Context<\'_>\s*\)\s*->\s*Poll<Self::Output>'))
+        if not re.fullmatch(r'let this = self\.project\(\); if let Poll::Ready\(result\) = this\.inner\.poll\(cx\) \{ return Poll::Ready\(result(\.map_err\(Into::into\))?\); \} if let Some\(sleep\) = this\.sleep\.as_pin_mut\(\) \{ futures::ready!\(sleep\.poll\(cx\)\); ' + re.escape(at_deadline) + r' \} Poll::Pending', pl):
+            raise ValueError('timeouts: ResponseFuture::poll of ' + rel.split('/')[-1])
+    nm = flat(strip_comments(read(repo, 'crates/anemo/src/network/mod.rs')))
+    if 'let outbound_request_layer = { let builder = ServiceBuilder::new() .layer(timeout::outbound::TimeoutLayer::new( config.outbound_request_timeout(), )); if let Some(layer) = self.outbound_request_layer.take() { BoxLayer::new(builder.layer(layer).into_inner()) } else { BoxLayer::new(builder.into_inner()) } };' not in nm:
+        raise ValueError('timeouts: wiring of the outbound default')
+    if 'let service = ServiceBuilder::new() .layer(timeout::inbound::TimeoutLayer::new( config.inbound_request_timeout(), )) .layer(AddExtensionLayer::new(NetworkRef(weak.clone()))) .service(service) .boxed_clone();' not in nm:
+        raise ValueError('timeouts: wiring of the inbound default')
+    return 'def timeoutShapeChecked : Bool := true\n'
+
+
 ITEMS = [('ANEMO', item_anemo), ('Version', item_version), ('StatusCode', item_status),
-         ('headers', item_headers), ('ConfigDefaults', item_config), ('tieBreak', item_tiebreak), ('codegen', item_codegen), ('admit', item_admit), ('life', item_life), ('registry', item_registry), ('tick', item_tick), ('rpcpath', item_rpcpath), ('tls', item_tls), ('wirefmt', item_wirefmt), ('tower', item_tower)]
+         ('headers', item_headers), ('ConfigDefaults', item_config), ('tieBreak', item_tiebreak), ('codegen', item_codegen), ('admit', item_admit), ('life', item_life), ('registry', item_registry), ('tick', item_tick), ('rpcpath', item_rpcpath), ('tls', item_tls), ('wirefmt', item_wirefmt), ('tower', item_tower), ('timeouts', item_timeouts)]
 
 HEADER = '''/- GENERATED by /verif/tools/gen.py from /repo's working tree on every run -- do not edit. -/
 import AnemoModel.Basic
